@@ -158,7 +158,7 @@ func (w *World) genProbeStep(kind string, r *Rand, sub uint64) (Step, bool) {
 		return mkStep("probe.fuzztx", fuzzArgs{Back: r.Intn(60), Kind: pick(r, kinds), Pos: r.Intn(1 << 16), InBlock: r.Chance(0.5)}, sub), true
 	case "probe.fuzzproposal":
 		a := w.genBlock(r)
-		a.Rounds = append([]RoundSpec{{Kind: "byz", Mut: pick(r, []string{"garbage-first", "nil-payload", "too-many", "drop-first", "dup-first", "two-msgs", "extra-data-short", "goat-flip", "parent-field"}), Forced: true}}, a.Rounds...)
+		a.Rounds = append([]RoundSpec{{Kind: "byz", Mut: pick(r, []string{"garbage-first", "nil-payload", "too-many", "drop-first", "dup-first", "two-msgs", "extra-data-short", "goat-flip", "parent-field", "field-length", "field-length", "field-length", "content-under-same-hash"}), Forced: true}}, a.Rounds...)
 		return mkStep("block", a, sub), true
 	case "probe.export":
 		return mkStep("probe.export", exportArgs{K: 4 + r.Intn(8)}, sub), true
